@@ -12,7 +12,7 @@ EXPLANATION = ('Differential symbolic run of the real framework: the same progra
                'pre/post-optimisation components, linear block solvers on feed-forward groups) is executed with relevance enabled '
                'and with openmdao.utils.relevance._no_relevance = True (the documented OPENMDAO_NO_RELEVANCE switch); responses and '
                'total derivatives in fwd and rev, for every of/wrt subset and return format, must be the same terms for all inputs.')
-BOUNDS = dict(programs='branches, chain3, diamond (+ library members in the thorough tier)', of_wrt='all declared, each single response, each single design variable, ad-hoc subsets',
+BOUNDS = dict(programs='branches, chain3, diamond (+ library members in the thorough tier); variants with one group approximating its semi-totals by finite differences', call_orders='all of/wrt first | single pairs first, then growing sets', of_wrt='all declared, each single response, each single design variable, ad-hoc subsets',
               solvers='LinearRunOnce, LinearBlockGS with one sweep on feed-forward groups (exact there)')
 STUBS = []
 ASSUMPTIONS = ['reals']
@@ -68,6 +68,12 @@ def harnesses(tier, seed):
         for mode in ('fwd', 'rev'):
             for solver in (['runonce', 'lnbgs'] if q else list(SOLVERS)):
                 jobs.append(dict(fn='h_diff', params=dict(prog=prog, mode=mode, solver=solver)))
+    # a group that approximates its semi-totals (approx_totals) and totals asked for one response first, then for more
+    for prog, grp in (('chain3', 'g2'),) if q else (('chain3', 'g2'), ('chain3', 'g1'), ('diamond', 'g')):
+        for mode in ('fwd', 'rev'):
+            jobs.append(dict(fn='h_diff', params=dict(prog=prog, mode=mode, solver='runonce', approx=grp, order='narrow_first')))
+    for prog in PROGS:
+        jobs.append(dict(fn='h_diff', params=dict(prog=prog, mode='fwd' if q else 'rev', solver='runonce', order='narrow_first')))
     if not q:
         for prog in ('basic', 'idx_flat', 'auto_units', 'promote_chain', 'ratio'):
             for mode in ('fwd', 'rev'):
@@ -79,7 +85,7 @@ def _make(prog):
     return PROGS[prog]() if prog in PROGS else LIBRARY[prog]()
 
 
-def _run(ctx, prog, mode, solver, no_rel, vals=None):
+def _run(ctx, prog, mode, solver, no_rel, vals=None, approx=None, order='all_first'):
     old = REL._no_relevance
     REL._no_relevance = no_rel
     try:
@@ -91,6 +97,8 @@ def _run(ctx, prog, mode, solver, no_rel, vals=None):
         if solver != 'runonce':
             for g in {it[1] for it in P.items if it[0] == 'comp' and it[1]} | {''}:
                 P.group_opts.setdefault(g, {})['linear_solver'] = SOLVERS[solver]
+        if approx:
+            P.pre_setup = lambda p, groups, comps: groups[approx].approx_totals(method='fd', step=2.0 ** -8)
         p = P.build(ctx, mode=mode)
         if vals is None:
             vals = P.set_indeps(ctx, p)
@@ -101,11 +109,17 @@ def _run(ctx, prog, mode, solver, no_rel, vals=None):
         res = {}
         names = list(P.ofs) + list(getattr(P, 'extra', {}).values())
         res['out'] = {n: p.get_val(n) for n in names}
-        res['J_all'] = p.compute_totals(of=P.ofs, wrt=P.wrts, return_format='flat_dict')
+        if order == 'all_first':
+            res['J_all'] = p.compute_totals(of=P.ofs, wrt=P.wrts, return_format='flat_dict')
+        else:       # single pairs first: every later call needs variables the earlier ones did not
+            for o, w in zip(P.ofs, P.wrts):
+                res[f'J_pair_{o}_{w}'] = p.compute_totals(of=[o], wrt=[w], return_format='flat_dict')
         for o in P.ofs:
             res['J_of_' + o] = p.compute_totals(of=[o], wrt=P.wrts, return_format='flat_dict')
         for w in P.wrts:
             res['J_wrt_' + w] = p.compute_totals(of=P.ofs, wrt=[w], return_format='flat_dict')
+        if order != 'all_first':
+            res['J_all'] = p.compute_totals(of=P.ofs, wrt=P.wrts, return_format='flat_dict')
         # driver-declared responses/design variables (indices applied), driver entry point
         res['J_driver'] = p.driver._compute_totals(return_format='flat_dict')
         # an ad-hoc response that is not a declared response (forces a different relevance graph)
@@ -119,9 +133,9 @@ def _run(ctx, prog, mode, solver, no_rel, vals=None):
         REL._no_relevance = old
 
 
-def h_diff(ctx, prog, mode, solver):
-    on, vals, P = _run(ctx, prog, mode, solver, False)
-    off, _, _ = _run(ctx, prog, mode, solver, True, vals)
+def h_diff(ctx, prog, mode, solver, approx=None, order='all_first'):
+    on, vals, P = _run(ctx, prog, mode, solver, False, approx=approx, order=order)
+    off, _, _ = _run(ctx, prog, mode, solver, True, vals, approx=approx, order=order)
     tol = 1e-9 if P.uses_units() else 0
     for key in on:
         a, b = on[key], off[key]
